@@ -380,8 +380,12 @@ class _UdpServer(object):  # pragma: no cover
             try:
                 datagram, addr = self.sock.recvfrom(Packet.RECV_SIZE)
             except ConnectionResetError as e:
+                # windows reports an icmp port unreachable message for a
+                # datagram that was sent earlier (the peer is gone) as an
+                # error of the next call to recvfrom. the socket is still
+                # usable and the other peers are not affected
                 self.ctxt.log.warning("recvfrom error: %s:%s: %s" % (type(e), e, self.sock.fileno()))
-                break
+                continue
 
             if addr[0] in self.ctxt.blocklist:
                 continue
